@@ -161,6 +161,8 @@ type Node struct {
 	// GasLimit, when non-zero, is the block gas limit this node's miner chooses (a miner-chosen header field);
 	// small values make blocks run full.
 	GasLimit uint64
+	// MineTimeoutMs is the time the miner path gives itself for packaging transactions (0 = ten minutes)
+	MineTimeoutMs int64
 }
 
 // ScratchDir makes a fresh directory below $TMPDIR.
@@ -288,7 +290,11 @@ func (n *Node) MineH(parent *types.Block, t uint32, cands types.Transactions, ex
 		override(header)
 	}
 	txs := CloneTxs(cands)
-	block, invalid, err := asm.MineBlock(header, txs, 600000)
+	timeout := int64(600000)
+	if n.MineTimeoutMs > 0 {
+		timeout = n.MineTimeoutMs
+	}
+	block, invalid, err := asm.MineBlock(header, txs, timeout)
 	if err != nil {
 		return nil, err
 	}
